@@ -92,6 +92,12 @@ AbsNext(a, act, o2) ==
     [] act.res = "ok" ->
          LET c == After(a, act)
          IN  [a EXCEPT !.B = c.B, !.F = c.F]
+    [] act.op \in {"RollbackB", "RollbackF"} /\ act.res = "err" /\ act.stop # "none" ->
+         \* a rollback that reports an injected write error: the statement does
+         \* not say which of the two lists the store must then hold; it must
+         \* be one of them (ListRefinement judges the match)
+         LET c == After(a, act)
+         IN  IF Matches(o2, [B |-> c.B, F |-> c.F]) THEN [a EXCEPT !.B = c.B, !.F = c.F] ELSE a
     [] OTHER -> a
 
 IsAppend(act) == act.op \in {"AppendB", "AppendF"}
